@@ -182,6 +182,8 @@ DEFAULT_KNOBS = dict(
     name_len=(1, 2),        # ... with this length, so coincidences are common
     fix_interfaces=True,    # valid=True: leave interface types to a final fixvariableinterfaces call
     link_units=0.5,         # probability of a final linkunits call
+    mixed_connection_ids=False,  # True: equivalences between the same two components may carry different connection
+                            # ids; Variable::equivalenceConnectionId then answers by pointer order (address dependent!)
     wild_numbers=None,      # arbitrary real exponents / multipliers on unit children (None: only when valid=False)
 )
 
@@ -447,20 +449,37 @@ class _Gen:
                 continue
             if self.chance(0.5):
                 v1, v2 = v2, v1
+            key = tuple(sorted((info["var_owner"][v1], info["var_owner"][v2])))
+            mixed = k["mixed_connection_ids"]
             if self.chance(k["p_eq_ids"]):
-                key = tuple(sorted((info["var_owner"][v1], info["var_owner"][v2])))
-                if key not in conn_ids or not self.valid:
-                    conn_ids[key] = self.new_id()
-                if self.chance(0.5):
-                    b.cmd("addequivalence_ids", v1, v2, S(self.new_id()), S(conn_ids[key]))
+                if mixed:
+                    # ids given pair by pair: equivalences between the same two components may end up with different
+                    # connection ids, and Variable::equivalenceConnectionId then answers by pointer order
+                    if self.chance(0.5):
+                        b.cmd("addequivalence_ids", v1, v2, S(self.new_id()), S(self.new_id()))
+                    else:
+                        b.cmd("addequivalence", v1, v2)
+                        b.cmd("setequivalencemappingid", v1, v2, S(self.new_id()))
+                        b.cmd("setequivalenceconnectionid", v1, v2, S(self.new_id()))
                 else:
-                    b.cmd("addequivalence", v1, v2)
-                    b.cmd("setequivalencemappingid", v1, v2, S(self.new_id()))
-                    b.cmd("setequivalenceconnectionid", v1, v2, S(conn_ids[key]))
+                    if self.chance(0.5):
+                        b.cmd("addequivalence_ids", v1, v2, S(self.new_id()))
+                    else:
+                        b.cmd("addequivalence", v1, v2)
+                        b.cmd("setequivalencemappingid", v1, v2, S(self.new_id()))
+                    if key not in conn_ids:
+                        conn_ids[key] = (self.new_id(), v1, v2)
             else:
                 b.cmd("addequivalence", v1, v2)
             pairs.append((v1, v2))
         info["equivalences"] = pairs
+        # one connection id per pair of components, set once the equivalence network is complete and in both argument
+        # orders, so that every pair the library's connection map can contain carries the same id (deterministic getter)
+        for key in sorted(conn_ids):
+            cid, v1, v2 = conn_ids[key]
+            b.cmd("setequivalenceconnectionid", v1, v2, S(cid))
+            b.cmd("setequivalenceconnectionid", v2, v1, S(cid))
+        info["connection_ids"] = {key: val[0] for key, val in conn_ids.items()}
 
         # units of variables: one units name per connected group when valid
         group = {v: v for v in info["variables"]}
